@@ -6,7 +6,7 @@ CONSTANT ZIds = {1, 3}
 CONSTANT HIds = {1, 3, 5}
 CONSTANT Lays = {1, 2, 3, 4, 5}
 CONSTANT Mod = 1
-CONSTANT TsMod = 2
+CONSTANT TsMod = 3
 INIT Init
 NEXT Next
 INVARIANT C13_Representable
